@@ -34,7 +34,7 @@ META = {
     "bounds": "2 random variables, <= 2 robust rows per constraint, decision rules 2x2 with every dependency pattern; set families: box, polytope with equality, budget (1-norm & inf-norm), ball, ellipsoid, box-and-ball, intersections, exp/KL (with the K/K* pairing fact)",
     "trusted_base": ["z3/cvc5 (NRA)", "value of an expression at an assignment = linear.x + const (C05 contract)",
                      "the external solver returns a point feasible for the compiled program within tolerance",
-                     "M3 pairing of the exponential cone with its dual (only for exp/KL sets)"],
+                     "M3 pairing of the exponential cone with its dual (only for exp/KL sets): Lean-checked (lean/Lemmas.lean expcone_pairing*, job lemmas-lean), as are weak duality and the SOC pairing, which the direct semantic VCs do not use but the cross-check does"],
     "assumptions": ["A-EXACTFLOAT: set parameters are symbolic or exactly representable so that floats-as-reals introduces no artefact"],
 }
 
@@ -72,6 +72,9 @@ def _pos(c, name):
 
 SETS = {
     "box": lambda c, z: [z <= c.fresh_real("u"), z >= c.fresh_real("l")],
+    # every component with its OWN bounds: zero-ness forks per component, so sets where one random variable has a bound at
+    # exactly 0 (a sign-constrained dual row) and the other has not (a free one) occur on some path
+    "box-per-component": lambda c, z: [z[0] <= c.fresh_real("u0"), z[0] >= c.fresh_real("l0"), z[1] <= c.fresh_real("u1"), z[1] >= c.fresh_real("l1")],
     "polytope": lambda c, z: [_nzarr(c, 2, "pa") @ z <= c.fresh_real("pb"), z >= 0, z[0] + 2 * z[1] == c.fresh_real("pt")],
     "budget": lambda c, z: [rsome.norm(z, 1) <= _pos(c, "g"), rsome.norm(z, "inf") <= 1],
     "ball": lambda c, z: [rsome.norm(z, 2) <= _pos(c, "r")],
@@ -324,8 +327,8 @@ TOO_HEAVY = [
     "set-then-box/square",
     "two-rows/square"
 ]
-TIMES = {"set-then-box/budget": 90.0, "le/square": 122.0, "ge/budget": 14.6, "ge/square": 121.5, "two-rows/square": 121.6, "eq/square": 14.2, "default-set/budget": 65.2, "default-set/box-ball": 136.7, "default-set/square": 243.2, "default-set/list-and-args": 14.2, "maxmin-own-set/budget": 14.7, "maxmin-own-set/square": 121.9, "maxmin-own-set/list-and-args": 14.4, "ldr-full/box": 5.2, "ldr-full/budget": 138.6, "ldr-full/ball": 5.8, "ldr-full/shifted-ball": 121.5, "ldr-full/ellipsoid": 122.1, "ldr-full/box-ball": 139.2, "ldr-full/square": 366.5, "ldr-diag/budget": 102.3, "ldr-diag/ellipsoid": 18.9, "ldr-diag/square": 364.2, "ldr-one/budget": 135.4, "ldr-one/ellipsoid": 121.7, "ldr-one/box-ball": 14.2, "ldr-one/square": 244.3, "piecewise/budget": 40.6, "piecewise/box-ball": 172.2, "piecewise/square": 245.4, "interleaved-sets/budget": 24.3, "interleaved-sets/box-ball": 121.7, "interleaved-sets/square": 121.4, "le/exp": 120.4}
-QUICK_SETS = ["box", "polytope", "ball", "ellipsoid", "box-ball", "budget", "abs"]
+TIMES = {"ldr-full/box-per-component": 94.0, "set-then-box/budget": 90.0, "le/square": 122.0, "ge/budget": 14.6, "ge/square": 121.5, "two-rows/square": 121.6, "eq/square": 14.2, "default-set/budget": 65.2, "default-set/box-ball": 136.7, "default-set/square": 243.2, "default-set/list-and-args": 14.2, "maxmin-own-set/budget": 14.7, "maxmin-own-set/square": 121.9, "maxmin-own-set/list-and-args": 14.4, "ldr-full/box": 5.2, "ldr-full/budget": 138.6, "ldr-full/ball": 5.8, "ldr-full/shifted-ball": 121.5, "ldr-full/ellipsoid": 122.1, "ldr-full/box-ball": 139.2, "ldr-full/square": 366.5, "ldr-diag/budget": 102.3, "ldr-diag/ellipsoid": 18.9, "ldr-diag/square": 364.2, "ldr-one/budget": 135.4, "ldr-one/ellipsoid": 121.7, "ldr-one/box-ball": 14.2, "ldr-one/square": 244.3, "piecewise/budget": 40.6, "piecewise/box-ball": 172.2, "piecewise/square": 245.4, "interleaved-sets/budget": 24.3, "interleaved-sets/box-ball": 121.7, "interleaved-sets/square": 121.4, "le/exp": 120.4}
+QUICK_SETS = ["box", "box-per-component", "polytope", "ball", "ellipsoid", "box-ball", "budget", "abs"]
 
 
 def jobs(tier):
